@@ -131,6 +131,11 @@ def collision_cases():
         'ct_multi_x_mid': "custom_target('m2', input: 'in.txt', output: ['m2a.txt', 'x', 'm2c.txt'], command: ['cp', '@INPUT@', '@OUTPUT0@'])",
         'ct_multi_x_last': "custom_target('m3', input: 'in.txt', output: ['m3a.txt', 'm3b.txt', 'x'], command: ['cp', '@INPUT@', '@OUTPUT0@'])",
         'cfg_out_x': "configure_file(input: 'in.txt', output: 'x', copy: true)",
+        # a custom target that reads a configured file and writes to the same path / a custom target whose output is its own input
+        'ct_rewrites_cfg_x': "custom_target('rw', input: configure_file(input: 'in.txt', output: 'x', copy: true), output: 'x', command: ['cp', '@INPUT@', '@OUTPUT@'])",
+        'ct_out_is_own_source_input': "custom_target('self', input: 'in.txt', output: 'in.txt', command: ['cp', '@INPUT@', '@OUTPUT@'])",
+        'ct_chain_cycle': "c1 = custom_target('c1', input: 'in.txt', output: 'c1.txt', command: ['cp', '@INPUT@', '@OUTPUT@'])\n"
+                          "custom_target('c2', input: c1, output: 'c1.txt', command: ['cp', '@INPUT@', '@OUTPUT@'])",
         'ct_out_x_p': ct % ('ctxp', 'x.p'),
         'ct_out_build_ninja': ct % ('ctbn', 'build.ninja'),
         'ct_out_meson_private': ct % ('ctmp', 'meson-private'),
